@@ -417,6 +417,30 @@ def check_property(prop, tier, seed):
                 samples.append({"obligation": d["name"], "scenario": res["scenario"], "clause": d["text"], "path": d["path"],
                                 "smt_chars": d["smt_size"], "backend": d["backend"], "secs": d["secs"]})
     slowest.sort(reverse=True)
+    # ---- static (syntactic) obligations: relational equality of sibling bodies, hierarchy facts, frame clauses
+    from . import static
+
+    static_fail = []
+    for fn in static.CHECKS.get(prop, []):
+        t1 = time.time()
+        try:
+            obls = fn(w)
+        except Exception as e:  # noqa
+            undecided.append(f"static obligations {fn.__name__}: stale (source layout changed): {e!r}")
+            continue
+        f = functions.setdefault("static:" + fn.__name__, {"function": "static:" + fn.__name__ + " (ast of the real source)", "source_sha256_16": "-",
+                                                             "scenarios": 1, "paths": 0, "obligations": 0, "exits": {}})
+        for name, ok, detail in obls:
+            n_obl += 1
+            f["obligations"] += 1
+            if ok:
+                n_dis += 1
+                by_backend["ast"] = by_backend.get("ast", 0) + 1
+                if len([x for x in samples if x.get("backend") == "ast"]) < 2:
+                    samples.append({"obligation": name, "backend": "ast", "clause": detail or "syntactic equality / frame clause holds"})
+            else:
+                static_fail.append((name, detail))
+        solver_time += time.time() - t1
     # ---- bounded / native parts
     bounded = run_bounded(prop, tier, seed)
     # path-directed native evaluation of the contracts on the real code (bounded, never counted as proved)
@@ -473,6 +497,14 @@ def check_property(prop, tier, seed):
             json.dump(replay, fh, indent=1, default=str)
         vio_count += 1
         lines.append(f"VIOLATION property={prop} replay={rp}" + ("" if confirmed else " no-failing-input-found"))
+    for name, detail in static_fail:
+        rp = os.path.join("replays", prop, safe("static__" + name.replace("/", "_")) + ".json")
+        with open(os.path.join(VERIF, rp), "w") as fh:
+            json.dump({"property": prop, "obligation": name, "kind": "static obligation over the ast of the real source", "detail": detail,
+                       "solver": {"backend": "ast", "status": "refuted (syntactic obligation does not hold); no input is produced by this back end"},
+                       "confirmed": False}, fh, indent=1)
+        vio_count += 1
+        lines.append(f"VIOLATION property={prop} replay={rp} no-failing-input-found")
     seen_nat = set()
     for res, smp, job, o in nat_fail:
         ident = (res["func"], res["scenario"], tuple(sorted(o["failed"])))
